@@ -185,6 +185,11 @@ type Item struct {
 	Body  string // assert text or goal text (positive form)
 	Guard string
 	Goal  *Goal
+	DefName string // definitional equality: DefName = Fact
+	GuardS  string
+	Fact    string
+	syms    []string
+	fsyms   []string
 }
 
 type Goal struct {
@@ -215,6 +220,8 @@ type Ctx struct {
 	Goals   []*Goal
 	nfresh  int
 	Extra   []string
+	declNames map[string]bool
+	mu        sync.Mutex
 	declared map[string]bool
 }
 
@@ -258,7 +265,7 @@ func (c *Ctx) Def(hint string, t Term) Term {
 		return t
 	}
 	n := c.Fresh(hint, t.Sort)
-	c.Items = append(c.Items, Item{Kind: 1, Body: app("=", n.S, t.S)})
+	c.Items = append(c.Items, Item{Kind: 1, Body: app("=", n.S, t.S), DefName: n.S, Fact: t.S})
 	return n
 }
 
@@ -267,7 +274,7 @@ func (c *Ctx) Assume(guard Term, fact Term) {
 	if f.S == "true" {
 		return
 	}
-	c.Items = append(c.Items, Item{Kind: 1, Body: f.S})
+	c.Items = append(c.Items, Item{Kind: 1, Body: f.S, GuardS: guard.S, Fact: fact.S})
 }
 
 func (c *Ctx) AddGoal(g *Goal, guard, body Term) {
@@ -308,6 +315,125 @@ func (c *Ctx) Query(g *Goal, getvals []string) string {
 	if len(getvals) > 0 {
 		fmt.Fprintf(&b, "(get-value (%s))\n", strings.Join(getvals, " "))
 	}
+	return b.String()
+}
+
+// symbolsOf returns the declared-constant symbols occurring in an SMT text.
+func (c *Ctx) symbolsOf(s string) []string {
+	var out []string
+	seen := map[string]bool{}
+	i := 0
+	for i < len(s) {
+		ch := s[i]
+		if ch == '(' || ch == ')' || ch == ' ' || ch == '\n' {
+			i++
+			continue
+		}
+		if ch == '"' {
+			j := i + 1
+			for j < len(s) && s[j] != '"' {
+				j++
+			}
+			i = j + 1
+			continue
+		}
+		j := i
+		for j < len(s) && s[j] != '(' && s[j] != ')' && s[j] != ' ' && s[j] != '\n' {
+			j++
+		}
+		tok := s[i:j]
+		i = j
+		if c.declNames[tok] && !seen[tok] {
+			seen[tok] = true
+			out = append(out, tok)
+		}
+	}
+	return out
+}
+
+// QuerySliced keeps only the facts in the cone of influence of the goal
+// (dropping assumptions is sound; a proof of the sliced query is a proof of the full one).
+func (c *Ctx) QuerySliced(g *Goal) string {
+	c.mu.Lock()
+	if c.declNames == nil {
+		c.declNames = map[string]bool{}
+		for _, it := range c.Items {
+			if it.Kind == 0 {
+				c.declNames[it.Name] = true
+			}
+		}
+		for i := range c.Items {
+			it := &c.Items[i]
+			if it.Kind == 1 {
+				it.syms = c.symbolsOf(it.Body)
+				if it.Fact != "" {
+					it.fsyms = c.symbolsOf(it.Fact)
+				} else {
+					it.fsyms = it.syms
+				}
+			}
+		}
+	}
+	c.mu.Unlock()
+	items := c.Items[:g.upto]
+	rel := map[string]bool{}
+	for _, s := range c.symbolsOf(g.Guard + " " + g.Body) {
+		rel[s] = true
+	}
+	include := make([]bool, len(items))
+	for changed := true; changed; {
+		changed = false
+		for i := range items {
+			it := &items[i]
+			if it.Kind != 1 || include[i] {
+				continue
+			}
+			take := false
+			if it.DefName != "" {
+				take = rel[it.DefName]
+			} else {
+				if len(it.fsyms) == 0 {
+					take = true // ground fact about prelude symbols only
+				}
+				for _, s := range it.fsyms {
+					if rel[s] {
+						take = true
+						break
+					}
+				}
+			}
+			if take {
+				include[i] = true
+				changed = true
+				for _, s := range it.syms {
+					rel[s] = true
+				}
+			}
+		}
+	}
+	var b bytes.Buffer
+	b.WriteString("(set-option :produce-models true)\n(set-logic ALL)\n")
+	b.WriteString(c.Prelude)
+	for _, d := range c.Extra {
+		b.WriteString(d)
+		b.WriteString("\n")
+	}
+	b.WriteString("\n; ---- facts (sliced)\n")
+	for i, it := range items {
+		switch it.Kind {
+		case 0:
+			if rel[it.Name] {
+				fmt.Fprintf(&b, "(declare-const %s %s)\n", it.Name, it.Sort)
+			}
+		case 1:
+			if include[i] {
+				fmt.Fprintf(&b, "(assert %s)\n", it.Body)
+			}
+		}
+	}
+	b.WriteString("; ---- goal " + g.Name + "\n")
+	fmt.Fprintf(&b, "(assert (not %s))\n", Implies(T(SBool, g.Guard), T(SBool, g.Body)).S)
+	b.WriteString("(check-sat)\n")
 	return b.String()
 }
 
@@ -564,6 +690,7 @@ func parseSexprs(s string) []*sx {
 // parallel discharge
 
 type dischargeOpts struct {
+	NoSlice bool
 	Timeout time.Duration
 	All     bool
 	Workdir string
@@ -580,6 +707,14 @@ func discharge(c *Ctx, goals []*Goal, o dischargeOpts) {
 		go func() {
 			defer wg.Done()
 			defer func() { <-sem }()
+			if !g.ExpectSat && !o.NoSlice {
+				qs := c.QuerySliced(g)
+				rs, _ := race(qs, o.Workdir, g.Name+"_s", o.Timeout, false)
+				if rs.Status == "unsat" {
+					g.Status, g.Solver, g.Secs, g.Output = "proved", rs.Solver+" (sliced)", rs.Secs, rs.Output
+					return
+				}
+			}
 			q := c.Query(g, nil)
 			g.QueryTxt = ""
 			if len(q) > 4<<20 {
